@@ -77,8 +77,9 @@ fn ber_exp(x: f64, ccs: f64, random_bytes: [u8; 7]) -> bool {
     let shamt = usize::min(s, 63);
     let z = ((((approx_exp(r, ccs) as u128) << 1) - 1) >> shamt) as u64;
     let mut w = 0i16;
-    for (index, i) in (0..64).step_by(8).rev().enumerate() {
-        let byte = random_bytes[index];
+    // the comparison is lazy, most significant byte first, over the 7 supplied
+    // bytes (bits 63..8 of z); an unresolved tie rejects
+    for (i, byte) in (8..64).step_by(8).rev().zip(random_bytes) {
         w = (byte as i16) - (((z >> i) & 0xff) as i16);
         if w != 0 {
             break;
